@@ -204,6 +204,10 @@ theorem FrRel.congr {inst inst' : Term → Term} {d : Nat} {Bs : List Term} {Fs 
     rw [heq _ (by simp)]
     exact .callw l (ih (fun bg hbg => heq bg (by simp [hbg])))
 
+/-- a compiled clause of the VM, the clause term `Head :- Body` it stands for (one alternative of the
+    body of the clause it was compiled from), and the alternative of the reference (if any) -/
+abbrev Item := Clause × Term × Option SLD.Alt
+
 /-- **how a clause of the VM, called with the arguments of the goal `g`, relates to an alternative
     of the reference** (σ, π, D: the simulation relation at the call; `nv` the reference's variable
     counter; `d` the depth of the call):
@@ -214,11 +218,11 @@ theorem FrRel.congr {inst inst' : Term → Term} {d : Nat} {Bs : List Term} {Fs 
       which only binds the new names; then possibly `call(true)` frames the VM has no goal for;
     * `dead`: the head does not unify with the goal: no alternative of the reference -/
 inductive AltRel (fl : Bool) (σ : Subst) (π : Nat → Nat) (D : Nat → Prop) (nv d : Nat) (g : Term) :
-    Term → Option SLD.Alt → Prop
-  | prog {c : Term} : clauseS fl c = true → headKey c = goalKey g →
-      AltRel fl σ π D nv d g c (some (.clause (img σ π g) (ruleOf c)))
-  | frames {c : Term} (κ : Nat → Nat) (nv' : Nat) (τ2 : Subst) (ls : List Nat) {Fs : List SLD.Frame} :
-      clauseC fl c = true → headKey c = goalKey g → nv ≤ nv' →
+    Clause → Term → Option SLD.Alt → Prop
+  | prog {cl : Clause} {c : Term} : CRel fl cl (SLD.headBody c).1 (SLD.headBody c).2 → headKey c = goalKey g →
+      AltRel fl σ π D nv d g cl c (some (.clause (img σ π g) (ruleOf c)))
+  | frames {cl : Clause} {c : Term} (κ : Nat → Nat) (nv' : Nat) (τ2 : Subst) (ls : List Nat) {Fs : List SLD.Frame} :
+      CRel fl cl (SLD.headBody c).1 (SLD.headBody c).2 → headKey c = goalKey g → nv ≤ nv' →
       (∀ x y, CV c x → CV c y → κ x = κ y → x = y) →
       (∀ x u, CV c x → RV σ D u → π u ≠ κ x) →
       (∀ x, CV c x → κ x < nv') →
@@ -226,32 +230,33 @@ inductive AltRel (fl : Bool) (σ : Subst) (π : Nat → Nat) (D : Nat → Prop) 
       (∀ s : Term, (∀ z, s.hasVar z = true → z < nv) → s.subst τ2 = s) →
       (∀ x, CV c x → ∀ z, (τ2 (κ x)).hasVar z = true → z < nv) →
       FrRel (fun bg => (bg.rename κ).subst τ2) d (SLD.conjuncts (SLD.headBody c).2) Fs →
-      AltRel fl σ π D nv d g c (some (.frames (Fs ++ ls.map skipF)))
-  | dead {c : Term} (κ : Nat → Nat) (nv' : Nat) :
-      clauseC fl c = true → headKey c = goalKey g → nv ≤ nv' →
+      AltRel fl σ π D nv d g cl c (some (.frames (Fs ++ ls.map skipF)))
+  | dead {cl : Clause} {c : Term} (κ : Nat → Nat) (nv' : Nat) :
+      CRel fl cl (SLD.headBody c).1 (SLD.headBody c).2 → headKey c = goalKey g → nv ≤ nv' →
       (∀ x y, CV c x → CV c y → κ x = κ y → x = y) →
       (∀ x u, CV c x → RV σ D u → π u ≠ κ x) →
       (∀ x, CV c x → κ x < nv') →
       (∃ n, Robinson.solve n [(img σ π g, (SLD.headBody c).1.rename κ)] [] = .clash) →
-      AltRel fl σ π D nv d g c none
+      AltRel fl σ π D nv d g cl c none
 
 /-- the clauses of a call against the alternatives of the reference, in order.  `vcut`: the body
     of the clause starts with a cut that the reference does not have (`_ -> _ ; Else :- !, Else.`):
     harmless when nothing follows in the reference (the clauses that follow in the VM are cut away) -/
 inductive AltsRel (fl : Bool) (σ : Subst) (π : Nat → Nat) (D : Nat → Prop) (nv d : Nat) (g : Term) :
-    List (Term × Option SLD.Alt) → Prop
+    List Item → Prop
   | nil : AltsRel fl σ π D nv d g []
-  | cons {c : Term} {a : Option SLD.Alt} {its : List (Term × Option SLD.Alt)} :
-      AltRel fl σ π D nv d g c a → AltsRel fl σ π D nv d g its → AltsRel fl σ π D nv d g ((c, a) :: its)
-  | vcut {c : Term} {Fs Fs' : List SLD.Frame} {its : List (Term × Option SLD.Alt)} :
-      AltRel fl σ π D nv d g c (some (.frames Fs')) → Fs' = .goal (.atom "!") d :: Fs → its.filterMap (·.2) = [] →
-      AltsRel fl σ π D nv d g ((c, some (.frames Fs)) :: its)
+  | cons {cl : Clause} {c : Term} {a : Option SLD.Alt} {its : List Item} :
+      AltRel fl σ π D nv d g cl c a → AltsRel fl σ π D nv d g its → AltsRel fl σ π D nv d g ((cl, c, a) :: its)
+  | vcut {cl : Clause} {c : Term} {Fs Fs' : List SLD.Frame} {its : List Item} :
+      AltRel fl σ π D nv d g cl c (some (.frames Fs')) → Fs' = .goal (.atom "!") d :: Fs →
+      its.filterMap (·.2.2) = [] →
+      AltsRel fl σ π D nv d g ((cl, c, some (.frames Fs)) :: its)
 
 theorem altsRel_of_forall {fl : Bool} {σ : Subst} {π : Nat → Nat} {D : Nat → Prop} {nv d : Nat} {g : Term} :
-    ∀ {its : List (Term × Option SLD.Alt)}, (∀ it ∈ its, AltRel fl σ π D nv d g it.1 it.2) →
+    ∀ {its : List Item}, (∀ it ∈ its, AltRel fl σ π D nv d g it.1 it.2.1 it.2.2) →
       AltsRel fl σ π D nv d g its
   | [], _ => .nil
-  | (c, a) :: its, h => .cons (h (c, a) (by simp)) (altsRel_of_forall (fun it hit => h it (by simp [hit])))
+  | (cl, c, a) :: its, h => .cons (h (cl, c, a) (by simp)) (altsRel_of_forall (fun it hit => h it (by simp [hit])))
 
 /-- the alternatives of `\\+ G` ≡ `(call(G) -> fail ; true)` in the reference -/
 def negAlts (c : Term) (d l : Nat) : List SLD.Alt :=
@@ -272,14 +277,14 @@ inductive PSpec (fl : Bool) (mo : Option Nat) (tmpl : Term) (max : Nat) (prog : 
         ⟨[q], if max - ans0.length = 1 then .full else .exhausted⟩
   | err {lv : Lv} {d : Nat} {m : MS} {ans0 : List Term} {F c1 c2 : Term} : m.user.answers = ans0 →
       PSpec fl mo tmpl max prog lv d (errP (.exc (errT F c1))) m ans0 ⟨[], .raised (errT F c2) []⟩
-  | alts {lv : Lv} {m : MS} {ans0 : List Term} {id : Nat} {its : List (Term × Option SLD.Alt)} {g : Term}
+  | alts {lv : Lv} {m : MS} {ans0 : List Term} {id : Nat} {its : List Item} {g : Term}
       {K : Cont} {env : Env} {R : List SLD.Frame} {q : Term} {nv n d : Nat} {r : SLD.Res} :
       m.user.answers = ans0 → id ≠ 0 → Shape g →
       SimAt fl mo tmpl max lv K env m.user.nextVar R q nv
         (fun σ π D => InD D g ∧ AltsRel fl σ π D nv d g its) →
-      SLD.solveAlts false (progS prog) n d nv (its.filterMap (·.2)) R q (max - ans0.length) = some r →
+      SLD.solveAlts false (progS prog) n d nv (its.filterMap (·.2.2)) R q (max - ans0.length) = some r →
       PSpec fl mo tmpl max prog lv d
-        { id := id, delayed := its.map (fun it => Thunk.clause (clauseOf it.1) (argList g) K env id) } m ans0 r
+        { id := id, delayed := its.map (fun it => Thunk.clause it.1 (argList g) K env id) } m ans0 r
   | direct {lv : Lv} {m : MS} {ans0 : List Term} {id : Nat} {ct : Clause} {K : Cont} {env : Env}
       {R : List SLD.Frame} {q : Term} {nv n d : Nat} {r : SLD.Res} :
       m.user.answers = ans0 → id ≠ 0 → ct.code = [.exit] → ct.vars = [] →
